@@ -72,6 +72,11 @@ class Resource_set_body:
                                                    "contents": "opaque:Chunks", "content_type": "str"},
           returns="tuple[str,str]", effects=[["create_member", "self", "name", "contents", "content_type"]], assumed=True)
 class Resource_create_member:
+    def requires(self, name):
+        # C13: a member name is one path segment - the stores join it onto the collection's
+        # directory (StoreBasedCollection.create_member -> import_one -> os.path.join)
+        return name is None or "/" not in name
+
     def raises_PreconditionFailure(self, name, contents, content_type):
         return cm_outcome(self, name, contents, content_type) == 1
 
@@ -89,4 +94,5 @@ class Resource_create_member:
 @contract("iface:Resource.delete_member", params={"self": "opaque:Resource", "name": "str", "etag": "opt[str]"},
           defaults={"etag": None}, effects=[["delete_member", "self", "name", "etag"]], assumed=True)
 class Resource_delete_member:
-    pass
+    def requires(self, name):
+        return "/" not in name
